@@ -258,6 +258,16 @@ theorem src_chain_unlock_windows :
     chainLocks.all (fun e => !(lkExported e && lkTouches e) || (lkOps e).contains "Unlock" || e.1 == "OnReorg" ||
       lkOps e == ["Lock", "defer Unlock"]) = true := by decide
 
+/-- the shape `Model/Mutex.lean` gives a caller (`Props/C01.locked_callers_serializable`): every
+exported chain method that touches the state is a sequence of critical sections — two for
+`AddBlocks`/`AddValidatedV2Blocks` (change; listeners outside; epilogue), one for every other -/
+theorem src_chain_methods_are_sections :
+    (chainLocks.filter (fun e => lkExported e && lkTouches e)).map (fun e => (e.1, sectionsOf (lkOps e))) =
+      [("AddBlocks", some 2), ("AddValidatedV2Blocks", some 2), ("BestIndex", some 1), ("Block", some 1),
+       ("BlocksForHistory", some 1), ("Headers", some 1), ("History", some 1), ("MinReorgIndex", some 1),
+       ("OnReorg", some 1), ("PruneBlocks", some 1), ("State", some 1), ("TipState", some 1),
+       ("UpdatesSince", some 1)] := by decide
+
 /-- non-vacuity: every method named above is in the table extracted from the source -/
 theorem src_chain_lock_table_covers :
     chainMethods.all (fun n => managerLocks.any (·.1 == n)) = true ∧ chainLocks.length = chainMethods.length := by
